@@ -20,7 +20,7 @@ type c02Case struct {
 var indentPool = []string{"    ", "  ", "\t", " ", "        ", "   "}
 
 func genC02(t *rapid.T) c02Case {
-	in := GenIntentOpt(t, IntentOpts{Mixins: true, Subs: true})
+	in := GenIntentOpt(t, IntentOpts{Mixins: true, Subs: true, Collectors: true})
 	indent := pick(t, indentPool, "indent")
 	text := Render(in, indent)
 	st := statsOf(in)
@@ -56,7 +56,7 @@ func checkC02(x *X, c c02Case) error {
 }
 
 var c02Facts = Define("C02", "facts",
-	"Intents drawn by specgen (apps, !type/!table/!enum/!alias/!union, every primitive spelling, size specs, set/sequence, local and cross-app refs, simple/REST/event endpoints, all statement kinds, tags/attrs/annotations with hostile strings) rendered with a random indent unit; oracle: facts(compile(text)) == facts(intent) and no unprojected content. Non-trivial: >=1 type with >=2 fields and >=1 endpoint with statement depth >=2; distinct by hash of the expected facts.",
+	"Intents drawn by specgen (apps, !type/!table/!enum/!alias/!union, every primitive spelling, size specs, set/sequence, local and cross-app refs, simple/REST/event endpoints, subscriptions, single-level mixins, collector blocks (attribute merge into endpoints and matching calls), all statement kinds, tags/attrs/annotations with hostile strings) rendered with a random indent unit; oracle: facts(compile(text)) == facts(intent) and no unprojected content. Non-trivial: >=1 type with >=2 fields and >=1 endpoint with statement depth >=2; distinct by hash of the expected facts.",
 	genC02, checkC02)
 
 func TestC02(t *testing.T) {
